@@ -250,7 +250,8 @@ var checks = []Check{
 		LevelText:   "bounded-exhaustive enumeration: every value of the RESP grammar up to depth 2 over boundary texts/integers, every concatenation of small messages under all chunkings (<= 14 bytes) or every placement of <= 2/3 cuts, six reader buffer sizes, against an independent codec; integer fast paths against strconv on every string over a 7-letter alphabet up to length 7/8 and every i in [-70000,70000]; 300 repetitions of one null/empty/nested message followed by other values through one decoder",
 		Technique:   "bounded-exhaustive input and chunking enumeration against an independent reference codec",
 		Assumptions: []string{"Go compiler and runtime", "independent RESP codec /verif/sim/resp and strconv as references", "boundary sets chosen from the thresholds in the code (32, 512, 4096, 8192, 32768, 10 digits)"},
-		Jobs:        []Job{{Pkg: "proc/redis", Scenarios: []string{"C10/codec"}, Shards: 16, QuickS: 120, ThoroughS: 240}},
+		Jobs: []Job{{Pkg: "proc/redis", Scenarios: []string{"C10/codec"}, Shards: 16, QuickS: 120, ThoroughS: 240},
+			{Pkg: "proc/redis", Scenarios: []string{"C10/codec-race"}, Race: true, Shards: 1, QuickS: 60, ThoroughS: 240}},
 	},
 	{
 		ID: "C12", Title: "key-to-slot mapping equals the Redis Cluster specification", Level: "exploration",
